@@ -148,7 +148,17 @@ def r3(ctx):
               got={"conditional": cond, "stores": sorted(allst)}, key="every-value")
     ctx.check("Dispersion::update", render(m[2]) == "welford_online::calculate_recurrence_relation_m(self.recurrence_relation_m, prev_mean, new_value, new_mean)",
               "M' = recurrence(own previous M, previous mean, value, new mean)", got=render(m[2]), key="m-args")
-    ctx.check("Dispersion::update", render(v[2]) == "welford_online::calculate_population_variance(self.recurrence_relation_m, value_count)"
+    var_ok = render(v[2]) == "welford_online::calculate_population_variance(self.recurrence_relation_m, value_count)"
+    if not var_ok and v[2][0] == "phi" and len(v[2]) > 2 and v[2][2] is not None:
+        # the leaf written out at the call site: same cases as the leaf (checked in R1) applied to (new M, count)
+        leaf = [d for d in ctx.facts.bodies if mir._strip_generics(d) == "barter::statistic::algorithm::welford_online::calculate_population_variance"]
+        if len(leaf) == 1:
+            lb = ctx.ibody(leaf[0])
+            call = ("call", leaf[0], (("proj", ("param", 1, "self"), ("recurrence_relation_m",)), ("param", [i for i in range(1, b.argc + 1) if b.param_name(i) == "value_count"][0], "value_count")), None)
+            want_cases = sorted((common.canon_guard(g), render(t)) for g, t in (common.at_call(ctx, call) or []))
+            got_cases = sorted((common.canon_guard(g), render(t)) for g, t, bi in b.local_cases(v[2][2]))
+            var_ok = bool(want_cases) and want_cases == got_cases
+    ctx.check("Dispersion::update", var_ok
               and _before(b, (m[0], m[1]), (v[0], v[1])) and (m[0], m[1]) != (v[0], v[1]),
               "variance from the NEW M and the count", got=render(v[2]), key="variance")
     rsd = render(sd[2])
